@@ -1192,6 +1192,30 @@ theorem finish_sat (ext : WExt) (s : WState) (hI : Inv s) (fa : Option Nat) (d :
       · exact ⟨rfl, hwf⟩
     · next h => exact absurd hin h
 
+theorem Inv.closeInner {s : WState} (hI : Inv s) : Inv { s with inner := .closed } :=
+  ⟨hI.extraFiles, hI.fileFiles, hI.centralExtra, fun _ _ => Or.inr rfl, by simp [InnerOk], hI.times⟩
+
+theorem dropInner_sat' (ext : WExt) (s : WState) (hI : Inv s) (fa : Option Nat) (d : Dev) :
+    Sat (dropInner ext s) fa d (fun rs _ => Inv rs.2 ∧ rs.1 = .ok ()) := by
+  unfold dropInner
+  split
+  · next m l pending _ =>
+    split
+    · have h := MSat.writeAll (ext.compress m l pending) fa d
+      unfold MSat at h
+      unfold Sat
+      rw [M.bind_apply, M.attempt_apply]
+      split at h
+      · exact ⟨hI.closeInner, rfl⟩
+      · exact ⟨hI.closeInner, rfl⟩
+      · exact h
+    · exact Sat.pure ⟨hI, rfl⟩
+  · exact Sat.pure ⟨hI, rfl⟩
+
+theorem dropInner_sat (ext : WExt) (s : WState) (hI : Inv s) (fa : Option Nat) (d : Dev) :
+    Sat (dropInner ext s) fa d (Post fun _ _ _ => True) :=
+  Sat.mono (dropInner_sat' ext s hI fa d) (fun _ _ h => ⟨h.1, fun _ _ => trivial⟩)
+
 theorem dropWriter_sat (ext : WExt) (s : WState) (hI : Inv s) (fa : Option Nat) (d : Dev) :
     Sat (dropWriter ext s) fa d (Post fun _ _ _ => True) := by
   unfold dropWriter
@@ -1200,6 +1224,6 @@ theorem dropWriter_sat (ext : WExt) (s : WState) (hI : Inv s) (fa : Option Nat) 
   · apply Sat.bind
     apply Sat.mono (finalize_sat ext s hI fa d)
     intro ⟨r, s1⟩ d1 ⟨hI1, hp⟩
-    exact Sat.pure (Post.ok hI1 trivial)
+    exact dropInner_sat ext s1 hI1 fa d1
 
 end ZipVerif.Model
